@@ -525,18 +525,20 @@ theorem flattenRoots_prefix (g : Heap) : ∀ (vs : List PVal) (idx : RefIndex) g
         obtain ⟨n2, e2⟩ := flattenRoots_prefix g vs idx1 _ _ _ heq2
         exact ⟨n1 ++ n2, by rw [e2, e1]; simp⟩
 
-/-- the simulation for `to_tree` / `from_tree` over a tuple of roots -/
-theorem simRoots {g H0 : Heap} {reuse : Addr → Option Addr} (R : Reuse g H0 reuse) (raw : Bool)
-    (tbl : Nat → Option Nat) (omap : Nat → Option Addr) (idxF : RefIndex)
-    (hst : ∀ i a, idxF[i]? = some a → (tbl i).bind omap = reuse a) :
-    ∀ (vs : List PVal) (idx : RefIndex) gds fss idx', flattenRoots g vs idx = .ok (gds, fss, idx') →
-      (∃ r, idxF = idx' ++ r) → ∀ H ir, GoodO H0 reuse idx ir H →
-        ∃ vs' H' ir', unflattenRootsO omap (gds.map (stampWith tbl)) (fss.map (convLeaves raw)) H ir = .ok (vs', H', ir') ∧
-          GoodO H0 reuse idx' ir' H' ∧ PostO g idx ir H idx' ir' H' ∧ ValsRel (phi idx' ir') vs vs'
-  | [], idx, gds, fss, idx', h, _, H, ir, G => by
-    simp [flattenRoots] at h; obtain ⟨rfl, rfl, rfl⟩ := h
-    exact ⟨[], H, ir, by simp [unflattenRootsO], G, PostO.refl g _ _ _, .nil⟩
-  | v :: vs, idx, gds, fss, idx', h, hpre, H, ir, G => by
+/-- `to_tree` over a tuple of roots, with an explicit budget per root (the eager heaps of the loop invariants are not
+traversed by the model itself, so they carry no particular budget) -/
+inductive FlatRoots (g : Heap) : List PVal → RefIndex → List GDef → List FlatState → RefIndex → Prop where
+  | nil (idx : RefIndex) : FlatRoots g [] idx [] [] idx
+  | cons {fuel : Nat} {v : PVal} {vs : List PVal} {idx idx1 idx2 : RefIndex} {gd : GDef} {ls : FlatState}
+      {gds : List GDef} {lss : List FlatState} :
+      flattenVal fuel g [] v idx = .ok (gd, ls, idx1) → FlatRoots g vs idx1 gds lss idx2 →
+      FlatRoots g (v :: vs) idx (gd :: gds) (ls :: lss) idx2
+
+theorem flatRoots_of_flattenRoots (g : Heap) : ∀ (vs : List PVal) (idx : RefIndex) gds fss idx',
+    flattenRoots g vs idx = .ok (gds, fss, idx') → FlatRoots g vs idx gds fss idx'
+  | [], idx, gds, fss, idx', h => by
+    simp [flattenRoots] at h; obtain ⟨rfl, rfl, rfl⟩ := h; exact .nil _
+  | v :: vs, idx, gds, fss, idx', h => by
     simp only [flattenRoots] at h
     split at h
     · cases h
@@ -545,14 +547,44 @@ theorem simRoots {g H0 : Heap} {reuse : Addr → Option Addr} (R : Reuse g H0 re
       · cases h
       · next gds2 lss2 idx2 heq2 =>
         simp at h; obtain ⟨rfl, rfl, rfl⟩ := h
-        obtain ⟨n2, e2⟩ := flattenRoots_prefix g vs idx1 _ _ _ heq2
-        obtain ⟨r, hr⟩ := hpre
-        obtain ⟨v', H1, ir1, hu1, G1, p1, hr1⟩ :=
-          (simO R raw tbl omap idxF hst _).1 [] v idx gd ls idx1 heq ⟨n2 ++ r, by rw [hr, e2]; simp⟩ H ir [] G
-        obtain ⟨vs', H2, ir2, hu2, G2, p2, hr2⟩ :=
-          simRoots R raw tbl omap idxF hst vs idx1 gds2 lss2 idx2 heq2 ⟨r, hr⟩ H1 ir1 G1
-        refine ⟨v' :: vs', H2, ir2, ?_, G2, PostO.trans R G1 G2 p1 p2, .cons (ValRel.mono p2.phiLe hr1) hr2⟩
-        simp only [List.append_nil] at hu1
-        simp only [List.map_cons, unflattenRootsO, hu1, hu2]
+        exact .cons heq (flatRoots_of_flattenRoots g vs idx1 _ _ _ heq2)
+
+theorem flatRoots_prefix {g : Heap} : ∀ {vs : List PVal} {idx : RefIndex} {gds fss idx'},
+    FlatRoots g vs idx gds fss idx' → ∃ new, idx' = idx ++ new
+  | _, _, _, _, _, .nil _ => ⟨[], by simp⟩
+  | _, _, _, _, _, .cons heq ht => by
+    obtain ⟨n1, e1⟩ := (flatten_prefix g _).1 _ _ _ _ _ _ heq
+    obtain ⟨n2, e2⟩ := flatRoots_prefix ht
+    exact ⟨n1 ++ n2, by rw [e2, e1]; simp⟩
+
+/-- the simulation for `to_tree` / `from_tree` over a tuple of roots -/
+theorem simRootsF {g H0 : Heap} {reuse : Addr → Option Addr} (R : Reuse g H0 reuse) (raw : Bool)
+    (tbl : Nat → Option Nat) (omap : Nat → Option Addr) (idxF : RefIndex)
+    (hst : ∀ i a, idxF[i]? = some a → (tbl i).bind omap = reuse a) :
+    ∀ {vs : List PVal} {idx : RefIndex} {gds fss idx'}, FlatRoots g vs idx gds fss idx' →
+      (∃ r, idxF = idx' ++ r) → ∀ H ir, GoodO H0 reuse idx ir H →
+        ∃ vs' H' ir', unflattenRootsO omap (gds.map (stampWith tbl)) (fss.map (convLeaves raw)) H ir = .ok (vs', H', ir') ∧
+          GoodO H0 reuse idx' ir' H' ∧ PostO g idx ir H idx' ir' H' ∧ ValsRel (phi idx' ir') vs vs'
+  | _, _, _, _, _, .nil idx, _, H, ir, G =>
+    ⟨[], H, ir, by simp [unflattenRootsO], G, PostO.refl g _ _ _, .nil⟩
+  | _, _, _, _, _, .cons (v := v) (idx := idx) (idx1 := idx1) (gd := gd) (ls := ls) heq ht, hpre, H, ir, G => by
+    obtain ⟨n2, e2⟩ := flatRoots_prefix ht
+    obtain ⟨r, hr⟩ := hpre
+    obtain ⟨v', H1, ir1, hu1, G1, p1, hr1⟩ :=
+      (simO R raw tbl omap idxF hst _).1 [] v idx gd ls idx1 heq ⟨n2 ++ r, by rw [hr, e2]; simp⟩ H ir [] G
+    obtain ⟨vs', H2, ir2, hu2, G2, p2, hr2⟩ := simRootsF R raw tbl omap idxF hst ht ⟨r, hr⟩ H1 ir1 G1
+    refine ⟨v' :: vs', H2, ir2, ?_, G2, PostO.trans R G1 G2 p1 p2, .cons (ValRel.mono p2.phiLe hr1) hr2⟩
+    simp only [List.append_nil] at hu1
+    simp only [List.map_cons, unflattenRootsO, hu1, hu2]
+
+theorem simRoots {g H0 : Heap} {reuse : Addr → Option Addr} (R : Reuse g H0 reuse) (raw : Bool)
+    (tbl : Nat → Option Nat) (omap : Nat → Option Addr) (idxF : RefIndex)
+    (hst : ∀ i a, idxF[i]? = some a → (tbl i).bind omap = reuse a)
+    (vs : List PVal) (idx : RefIndex) (gds : List GDef) (fss : List FlatState) (idx' : RefIndex)
+    (hf : flattenRoots g vs idx = .ok (gds, fss, idx')) (hpre : ∃ r, idxF = idx' ++ r) (H : Heap) (ir : IndexRef)
+    (G : GoodO H0 reuse idx ir H) :
+    ∃ vs' H' ir', unflattenRootsO omap (gds.map (stampWith tbl)) (fss.map (convLeaves raw)) H ir = .ok (vs', H', ir') ∧
+      GoodO H0 reuse idx' ir' H' ∧ PostO g idx ir H idx' ir' H' ∧ ValsRel (phi idx' ir') vs vs' :=
+  simRootsF R raw tbl omap idxF hst (flatRoots_of_flattenRoots g vs idx gds fss idx' hf) hpre H ir G
 
 end Flax.Nnx
